@@ -196,8 +196,8 @@ def conformance_part(prop, insts, traces, V, workdir, count):
         r = modelled(byid[t["id"]], t)
         if r is None and t["summary"]["nev"] > 2500:
             r = "more than 2500 events"
-        if r is None and (t["cfg"].get("maxnpt") or 0) > 7:
-            r = "more than 7 interpolation points"
+        if r is None and (t["cfg"].get("maxnpt") or 0) > 12:
+            r = "more than 12 interpolation points"
         if r is None:
             cand.append(t)
         else:
